@@ -40,6 +40,50 @@ theorem Good.fsChange {fs fs' : FS} {root : Path} {inv : List Row} (G : Good fs 
   sizes := G.sizes
   sum := G.sum
 
+theorem insertLRU_perm (r : Row) (l : List Row) : (insertLRU r l).Perm (r :: l) := by
+  induction l with
+  | nil => exact List.Perm.refl _
+  | cons x xs ih =>
+    simp only [insertLRU]
+    split
+    · exact ((List.Perm.cons x ih).trans (List.Perm.swap r x xs))
+    · exact List.Perm.refl _
+
+theorem sortLRU_perm (inv : List Row) : (sortLRU inv).Perm inv := by
+  induction inv with
+  | nil => exact List.Perm.refl _
+  | cons r rs ih => exact (insertLRU_perm r _).trans (List.Perm.cons r ih)
+
+theorem insertLRU_sorted (r : Row) (l : List Row) (h : l.Pairwise (fun a b => a.atime ≤ b.atime)) :
+    (insertLRU r l).Pairwise (fun a b => a.atime ≤ b.atime) := by
+  induction l with
+  | nil => simp [insertLRU]
+  | cons x xs ih =>
+    rw [List.pairwise_cons] at h
+    simp only [insertLRU]
+    split
+    · next hlt =>
+      rw [List.pairwise_cons]
+      refine ⟨fun y hy => ?_, ih h.2⟩
+      rcases List.mem_cons.mp ((insertLRU_perm r xs).mem_iff.mp hy) with rfl | hy'
+      · omega
+      · exact h.1 y hy'
+    · next hge =>
+      rw [List.pairwise_cons]
+      refine ⟨fun y hy => ?_, List.pairwise_cons.mpr h⟩
+      rcases List.mem_cons.mp hy with rfl | hy'
+      · omega
+      · have := h.1 y hy'; omega
+
+theorem sortLRU_sorted (inv : List Row) : (sortLRU inv).Pairwise (fun a b => a.atime ≤ b.atime) := by
+  induction inv with
+  | nil => exact List.Pairwise.nil
+  | cons r rs ih => exact insertLRU_sorted r _ ih
+
+theorem mem_sortLRU_filter (l : List Row) (p : Row → Bool) (x : Row) :
+    x ∈ (sortLRU l).filter p ↔ x ∈ l.filter p := by
+  simp only [List.mem_filter, (sortLRU_perm l).mem_iff]
+
 def agedB (cut : Option Nat) (x : Row) : Bool :=
   match cut with
   | none => false
@@ -74,25 +118,26 @@ theorem agePass_plain (now : Nat) (c : Cfg) (fs1 : FS) (inv1 : List Row) (log1 :
     (G1 : Good fs1 c.root inv1) (hage : ∀ a, c.maxAge = some a → a ≤ now) :
     agePass now c fs1 inv1 log1 =
       (let t2 := deleteFiles c.root fs1 inv1
-          ((inv1.filter (agedB (c.maxAge.map (now - ·)))).map fun r => (r, c.root ++ r.rel))
+          (((sortLRU inv1).filter (agedB (c.maxAge.map (now - ·)))).map fun r => (r, c.root ++ r.rel))
        ⟨t2.1, t2.2.1, .ok, log1 ++ t2.2.2⟩) := by
   unfold agePass
   cases hm : c.maxAge with
   | none =>
-    have : inv1.filter (agedB none) = [] := List.filter_eq_nil_iff.mpr (fun _ _ => by simp [agedB])
+    have : (sortLRU inv1).filter (agedB none) = [] := List.filter_eq_nil_iff.mpr (fun _ _ => by simp [agedB])
     simp only [Option.map_none, this, List.map_nil, deleteFiles, List.append_nil]
   | some a =>
     have ha := hage a hm
     simp only [Option.map_some]
     rw [if_neg (by omega), if_neg (by omega)]
     have : ageCandidates fs1 c.root inv1 (now - a)
-        = some ((inv1.filter (agedB (some (now - a)))).map fun r => (r, c.root ++ r.rel)) := by
+        = some (((sortLRU inv1).filter (agedB (some (now - a)))).map fun r => (r, c.root ++ r.rel)) := by
       unfold ageCandidates
-      have hf : (inv1.filter fun r => decide (r.atime < now - a)) = inv1.filter (agedB (some (now - a))) := rfl
+      have hf : ((sortLRU inv1).filter fun r => decide (r.atime < now - a))
+          = (sortLRU inv1).filter (agedB (some (now - a))) := rfl
       rw [hf]
       exact mapConv_eq _ _ _ fun r hr =>
-        convert_plain fs1 c.root r G1.rootOk (G1.plain r (List.mem_filter.mp hr).1)
-          (G1.sizes r (List.mem_filter.mp hr).1)
+        have hm := (List.mem_filter.mp ((mem_sortLRU_filter inv1 _ r).mp hr)).1
+        convert_plain fs1 c.root r G1.rootOk (G1.plain r hm) (G1.sizes r hm)
     rw [this]
 
 /-- what one eviction pass guarantees on a good state -/
@@ -107,6 +152,11 @@ structure EvictFacts (ord inv : List Row) (now : Nat) (c : Cfg) (fs : FS) (res :
   exact : (∀ a ∈ res.attempts, a.res ≠ .err) →
     res.inv = inv.filter (fun x =>
       decide (x ∉ sizeSel ord inv c.maxSize) && !agedB (c.maxAge.map (now - ·)) x)
+  /-- the order of the `remove_file` calls: the size selection in LRU order, then rows that are too old,
+  oldest first -/
+  order : ∃ rest, res.attempts.map (·.row) = sizeSel ord inv c.maxSize ++ rest ∧
+    rest.Pairwise (fun a b => a.atime ≤ b.atime) ∧
+    (∀ x ∈ rest, x ∈ inv ∧ agedB (c.maxAge.map (now - ·)) x = true)
 
 theorem mem_map_rel_iff {inv sel : List Row} (hn : (inv.map (·.rel)).Nodup) (hs : ∀ y ∈ sel, y ∈ inv)
     {x : Row} (hx : x ∈ inv) : x.rel ∈ sel.map (·.rel) ↔ x ∈ sel := by
@@ -134,10 +184,10 @@ theorem evictCore_plain (ord inv : List Row) (now : Nat) (c : Cfg) (fs : FS) (G 
     exact (G.fsChange D1.rootOk D1.plain).filter _
   rw [agePass_plain now c t1.1 t1.2.1 t1.2.2 G1 hage]
   simp only
-  have D2 := deleteFiles_plain c.root (t1.2.1.filter (agedB (c.maxAge.map (now - ·)))) t1.1 t1.2.1
-    G1.rootOk (fun r hr => G1.plain r (List.mem_filter.mp hr).1)
+  have D2 := deleteFiles_plain c.root ((sortLRU t1.2.1).filter (agedB (c.maxAge.map (now - ·)))) t1.1 t1.2.1
+    G1.rootOk (fun r hr => G1.plain r (List.mem_filter.mp ((mem_sortLRU_filter _ _ r).mp hr)).1)
   generalize deleteFiles c.root t1.1 t1.2.1
-    ((t1.2.1.filter (agedB (c.maxAge.map (now - ·)))).map fun r => (r, c.root ++ r.rel)) = t2 at D2
+    (((sortLRU t1.2.1).filter (agedB (c.maxAge.map (now - ·)))).map fun r => (r, c.root ++ r.rel)) = t2 at D2
   have hsub1 : ∀ x ∈ t1.2.1, x ∈ inv := fun x hx => by
     rw [D1.inv] at hx; exact (List.mem_filter.mp hx).1
   have hinv2 : t2.2.1 = inv.filter (fun x => !(doneRels (t1.2.2 ++ t2.2.2)).contains x.rel) := by
@@ -145,7 +195,16 @@ theorem evictCore_plain (ord inv : List Row) (now : Nat) (c : Cfg) (fs : FS) (G 
     apply List.filter_congr
     intro x _
     simp [Bool.and_comm]
-  refine ⟨rfl, ?_, ?_, hinv2, ?_, ?_, ?_, ?_⟩
+  refine ⟨rfl, ?_, ?_, hinv2, ?_, ?_, ?_, ?_, ?_⟩
+  rotate_right
+  · -- order
+    refine ⟨(sortLRU t1.2.1).filter (agedB (c.maxAge.map (now - ·))), ?_, ?_, ?_⟩
+    · show (t1.2.2 ++ t2.2.2).map (·.row) = _
+      rw [List.map_append, D1.rowsEq, D2.rowsEq]
+    · exact (sortLRU_sorted t1.2.1).filter _
+    · intro x hx
+      have h := List.mem_filter.mp ((mem_sortLRU_filter _ _ x).mp hx)
+      exact ⟨hsub1 x h.1, h.2⟩
   · -- good
     show Good t2.1 c.root t2.2.1
     rw [D2.inv]
@@ -156,9 +215,9 @@ theorem evictCore_plain (ord inv : List Row) (now : Nat) (c : Cfg) (fs : FS) (G 
     · refine ⟨hsel _ ?_, D1.paths a h⟩
       rw [← D1.rowsEq]; exact List.mem_map.mpr ⟨a, h, rfl⟩
     · refine ⟨hsub1 _ ?_, D2.paths a h⟩
-      have : a.row ∈ t1.2.1.filter (agedB (c.maxAge.map (now - ·))) := by
+      have : a.row ∈ (sortLRU t1.2.1).filter (agedB (c.maxAge.map (now - ·))) := by
         rw [← D2.rowsEq]; exact List.mem_map.mpr ⟨a, h, rfl⟩
-      exact (List.mem_filter.mp this).1
+      exact (List.mem_filter.mp ((mem_sortLRU_filter _ _ _).mp this)).1
   · -- removed
     intro a ha hok
     rcases List.mem_append.mp ha with h | h
@@ -186,16 +245,16 @@ theorem evictCore_plain (ord inv : List Row) (now : Nat) (c : Cfg) (fs : FS) (G 
       rw [D1.inv, e1, List.mem_filter]
       simp only [hx, true_and, Bool.not_eq_true', List.contains_eq_mem, decide_eq_false_iff_not]
       rw [mem_map_rel_iff G.nodup hsel hx]
-    have hsub2 : ∀ y ∈ t1.2.1.filter (agedB (c.maxAge.map (now - ·))), y ∈ inv := fun y hy =>
-      hsub1 y (List.mem_filter.mp hy).1
+    have hsub2 : ∀ y ∈ (sortLRU t1.2.1).filter (agedB (c.maxAge.map (now - ·))), y ∈ inv := fun y hy =>
+      hsub1 y (List.mem_filter.mp ((mem_sortLRU_filter _ _ y).mp hy)).1
     by_cases hs : x ∈ sizeSel ord inv c.maxSize
     · have : x.rel ∈ (sizeSel ord inv c.maxSize).map (·.rel) := List.mem_map.mpr ⟨x, hs, rfl⟩
       simp [hs, this]
     · have h1 : x.rel ∉ (sizeSel ord inv c.maxSize).map (·.rel) := fun h =>
         hs ((mem_map_rel_iff G.nodup hsel hx).mp h)
-      have h2 : x.rel ∈ (t1.2.1.filter (agedB (c.maxAge.map (now - ·)))).map (·.rel)
+      have h2 : x.rel ∈ ((sortLRU t1.2.1).filter (agedB (c.maxAge.map (now - ·)))).map (·.rel)
           ↔ agedB (c.maxAge.map (now - ·)) x = true := by
-        rw [mem_map_rel_iff G.nodup hsub2 hx, List.mem_filter]
+        rw [mem_map_rel_iff G.nodup hsub2 hx, mem_sortLRU_filter, List.mem_filter]
         simp [hin1.mpr hs]
       by_cases ha : agedB (c.maxAge.map (now - ·)) x = true
       · simp [hs, ha, h2.mpr ha]
@@ -283,36 +342,6 @@ theorem sumNat_filter_and_le (l : List Row) (p q : Row → Bool) :
   | cons x xs ih =>
     simp only [List.filter]
     cases hp : p x <;> cases hq : q x <;> simp only [Bool.and_false, Bool.and_true, sumNat] <;> omega
-
-theorem insertLRU_perm (r : Row) (l : List Row) : (insertLRU r l).Perm (r :: l) := by
-  induction l with
-  | nil => exact List.Perm.refl _
-  | cons x xs ih =>
-    simp only [insertLRU]
-    split
-    · exact ((List.Perm.cons x ih).trans (List.Perm.swap r x xs))
-    · exact List.Perm.refl _
-
-theorem insertLRU_sorted (r : Row) (l : List Row) (h : l.Pairwise (fun a b => a.atime ≤ b.atime)) :
-    (insertLRU r l).Pairwise (fun a b => a.atime ≤ b.atime) := by
-  induction l with
-  | nil => simp [insertLRU]
-  | cons x xs ih =>
-    rw [List.pairwise_cons] at h
-    simp only [insertLRU]
-    split
-    · next hlt =>
-      rw [List.pairwise_cons]
-      refine ⟨fun y hy => ?_, ih h.2⟩
-      rcases List.mem_cons.mp ((insertLRU_perm r xs).mem_iff.mp hy) with rfl | hy'
-      · omega
-      · exact h.1 y hy'
-    · next hge =>
-      rw [List.pairwise_cons]
-      refine ⟨fun y hy => ?_, List.pairwise_cons.mpr h⟩
-      rcases List.mem_cons.mp hy with rfl | hy'
-      · omega
-      · have := h.1 y hy'; omega
 
 /-- the order used by the executable model is one of the orders the theorems quantify over -/
 theorem sortLRU_order (inv : List Row) : LruOrder (sortLRU inv) inv := by
@@ -530,6 +559,6 @@ theorem evictCore_confined (ord inv : List Row) (hsub : ∀ r ∈ ord, r ∈ inv
               obtain ⟨r, hr, hcv⟩ := mapConv_mem _ _ _ hac _ this
               obtain ⟨e1, e2⟩ := convert_confined _ _ _ _ hcv
               simp only at e1
-              exact ⟨by rw [e1]; exact L1.2 r (List.mem_filter.mp hr).1, e2⟩
+              exact ⟨by rw [e1]; exact L1.2 r (List.mem_filter.mp ((mem_sortLRU_filter _ _ r).mp hr)).1, e2⟩
 
 end Quota
